@@ -188,6 +188,40 @@ func (g *gen) scenario(id, k int) {
 		for _, n := range []int64{base + 3, base + 1, base + 5, base + 9} {
 			free(n, "replay")
 		}
+	case 5:
+		// a 1+1 allocation of the minimal size whose write pool holds exactly its cost, then many writes far
+		// below the 64 KB chunk (each charged as a whole chunk): the write pool runs dry long before the
+		// allocation is full, and every upload after that must move (and book) only what the pool still has
+		bs := []*prov{g.blobbers[0], g.blobbers[1]}
+		cost := uint64(0)
+		for _, b := range bs {
+			g.do(b.key, "blobber_health_check", map[string]interface{}{}, 0, opInfo{variant: "one"})
+			for _, sb := range g.prev.Blobbers {
+				if sb.ID == b.key.ID {
+					cost += uint64(float64(sb.WritePrice) * (float64(MB) / float64(1024*MB)))
+				}
+			}
+		}
+		own := g.clients[0]
+		var al *allocInfo
+		for extra := uint64(0); extra < 4 && al == nil; extra++ {
+			n := len(g.allocs)
+			g.do(own, "new_allocation_request", g.newAllocInput(own, 1, 1, MB, bs), cost+extra, opInfo{variant: "new-exact"})
+			if len(g.allocs) > n {
+				al = g.allocs[n]
+			}
+		}
+		if al == nil {
+			break
+		}
+		for i := 0; i < 44; i++ {
+			b := bs[i%2]
+			in, _ := g.writeMarkerInput(g.prev, al, b, g.pickI(1, 1, 1000), int64(w.Now), own, "")
+			g.do(b.key, "commit_connection", in, 0, opInfo{variant: "upload-tiny", target: al.id, tblob: b.key.ID})
+			if i%8 == 7 {
+				g.nextBlock(1, 1)
+			}
+		}
 	case 3:
 		b := g.blobbers[3] // serves no allocation
 		g.do(b.delegate, "shutdown_blobber", map[string]interface{}{"provider_id": b.key.ID}, 0, opInfo{variant: "delegate", tblob: b.key.ID})
@@ -205,6 +239,7 @@ func (g *gen) start(id int, kind string) {
 	g.beginBlock(g.base, 1)
 	g.allocs = append([]*allocInfo{}, g.baseAllocs...)
 	g.readKeys, g.readKeySet = nil, map[string]bool{}
+	g.lastRM = map[string]lastMarker{}
 	g.nonceSeq = 0
 	g.t0 = w.Now
 	g.round0 = w.Cur.Round
@@ -280,7 +315,7 @@ func (g *gen) stepWrite() {
 	a := g.someAlloc()
 	b := g.blobberOf(a)
 	ba := findBA(findAlloc(g.prev, a.id), b.key.ID)
-	size := g.pickI(64*KB, 1*MB, 4*MB, 16*MB, 48*MB, 200*MB)
+	size := g.pickI(1, 1000, 64*KB, 1*MB, 4*MB, 16*MB, 48*MB, 200*MB)
 	if ba != nil && ba.UsedSize+size > ba.Size && g.chance(85) { // mostly stay within the blobber's share
 		size = g.pickI(64*KB, 1*MB, 3*MB)
 		if free := ba.Size - ba.UsedSize; free > 0 && free < size {
@@ -569,6 +604,7 @@ func (g *gen) stepRead() {
 			}
 		}
 	}
+	ks = key[0] + key[1] + key[2]
 	last := int64(0)
 	for _, c := range g.prev.ReadCtrs {
 		if c.Blobber == key[0] && c.Client == key[1] && c.Allocation == key[2] && c.Present {
@@ -617,8 +653,22 @@ func (g *gen) stepRead() {
 		from = client
 	}
 	in := g.readMarkerInput(a, b, client, signer, pub, ctr, ts)
-	g.do(from, "read_redeem", in, 0, opInfo{variant: variant, target: a.id, tblob: b.key.ID,
+	sig := in["read_marker"].(map[string]interface{})["signature"].(string)
+	// a marker the client never signed: higher counter, but signature, key (and timestamp) of the last marker
+	// that was redeemed for this key (what the contract keeps in its state and a blobber can read there)
+	if lm, ok := g.lastRM[ks]; ok && sigOK && ctr > last && g.chance(12) {
+		rm := in["read_marker"].(map[string]interface{})
+		rm["signature"] = lm.sig
+		if g.chance(50) {
+			rm["timestamp"] = lm.ts
+		}
+		sigOK, variant = false, variant+"-reusedsig"
+	}
+	res := g.do(from, "read_redeem", in, 0, opInfo{variant: variant, target: a.id, tblob: b.key.ID,
 		rmClient: client.ID, rmBlobber: b.key.ID, rmAlloc: a.id, rmCtr: ctr, rmSig: sigOK})
+	if res.Class == "ok" && sigOK {
+		g.lastRM[ks] = lastMarker{sig, ts}
+	}
 }
 
 func readPoolOf(s *storagesc.VerifStorageSnap, client string) uint64 {
